@@ -55,6 +55,7 @@ type Case struct {
 	To        string     `json:"to,omitempty"`
 	Input     string     `json:"input,omitempty"`
 	Value     string     `json:"value,omitempty"` // hex number, wei sent with the entry call
+	Fork      *int       `json:"fork,omitempty"`  // 0 before ETH_CONST, 1 ETH_CONST, 2 ETH_IST, 3 GALACTICA (default)
 	Gas       uint64     `json:"gas"`
 	Vecs      []AluVec   `json:"vecs,omitempty"`
 	Sweep     []uint64   `json:"sweep,omitempty"` // additional gas values (filled by the harness / kept in replays)
@@ -94,6 +95,33 @@ var masterTopicHex = func() string {
 	}
 	id := ev.ID()
 	return hx.HexN(id[:])
+}()
+
+func (c *Case) fork() int {
+	if c.Fork == nil {
+		return 3
+	}
+	return *c.Fork
+}
+
+// thor fork configurations under which runtime.New selects the Byzantium / Constantinople / Istanbul / Shanghai tables at block 1
+var forkConfigs = func() [4]*thor.ForkConfig {
+	var l [4]*thor.ForkConfig
+	for i := range l {
+		fc := thor.SoloFork
+		const never = ^uint32(0)
+		if i < 1 {
+			fc.ETH_CONST = never
+		}
+		if i < 2 {
+			fc.ETH_IST = never
+		}
+		if i < 3 {
+			fc.GALACTICA = never
+		}
+		l[i] = &fc
+	}
+	return l
 }()
 
 func valOf(s string) *big.Int {
@@ -501,7 +529,7 @@ func runImpl(c *Case, gas uint64, collectSteps bool) (o Obs) {
 		}
 	}
 	rt := runtime.New(theChain, st, &xenv.BlockContext{Beneficiary: addrOf(coinbaseHex), Number: envNumber, Time: envTime,
-		GasLimit: envGasLimit, BaseFee: big.NewInt(envBaseFee)}, &thor.SoloFork).SetVMConfig(vm.Config{Tracer: tr})
+		GasLimit: envGasLimit, BaseFee: big.NewInt(envBaseFee)}, forkConfigs[c.fork()]).SetVMConfig(vm.Config{Tracer: tr})
 	to := addrOf(c.To)
 	exec, _ := rt.PrepareClause(tx.NewClause(&to).WithData(hexBytes(c.Input)).WithValue(valOf(c.Value)), 0, gas,
 		&xenv.TransactionContext{ID: txID, Origin: addrOf(originHex), GasPrice: big.NewInt(envGasPrice)})
